@@ -22,7 +22,11 @@ import (
 	"github.com/relex/slog-agent/run"
 )
 
-var c12Fields = []string{"facility", "level", "time", "host", "app", "pid", "source", "extradata", "log", "x1", "x2", "x3"}
+// The last field, x4, is one that a configuration reload appended: the allocator (created once, before the reload) knows
+// the schema without it, the transforms and serializers (re-created by the reload) know the schema with it.
+var c12Fields = []string{"facility", "level", "time", "host", "app", "pid", "source", "extradata", "log", "x1", "x2", "x3", "x4"}
+
+const c12OldFields = 12
 
 const c12MaxFields = 14
 
@@ -750,7 +754,12 @@ func c12Build(yaml string, nOut int) (*c12Pipeline, error) {
 	c12cfgSeq++
 	mf := promreg.NewMetricFactory(fmt.Sprintf("c12x%d_", c12cfgSeq), nil, nil)
 	p := &c12Pipeline{schema: schema}
-	p.alloc = base.NewLogAllocator(schema, len(conf.OutputBuffersPairs))
+	// as after a reload that appended a field: the allocator still belongs to the schema of the first configuration
+	oldSchema, serr := base.NewLogSchema(c12Fields[:c12OldFields], c12MaxFields)
+	if serr != nil {
+		return nil, serr
+	}
+	p.alloc = base.NewLogAllocator(oldSchema, len(conf.OutputBuffersPairs))
 	c12Instrument(p.alloc, &p.stats)
 	inputCounter := base.NewLogInputCounter(mf.AddOrGetPrefix("input_", nil, nil))
 	p.parser, err = conf.Inputs[0].Value.NewParser(logger.Root(), p.alloc, schema, inputCounter)
